@@ -21,7 +21,7 @@ Lemma getutf8_encode cp :
 Proof.
   intro H.
   assert (Hlt : cp < 1114112).
-  { unfold getutf8_accepts_char, is_scalar in H. lia. }
+  { unfold getutf8_accepts_char, is_yang_char, is_scalar in H. lia. }
   pose proof (N_all_below_spec _ _ enc_accepted_all cp Hlt) as E.
   unfold enc_accepted in E. rewrite H in E. cbn [implb] in E.
   destruct (getutf8 (utf8_encode cp)) as [[cp' u]|]; [|discriminate].
@@ -29,3 +29,31 @@ Proof.
   apply N.eqb_eq in E1. apply Nat.eqb_eq in E2. subst. reflexivity.
 Qed.
 
+
+(* ... and nothing else is: ly_getutf8 reads the RFC 3629 encoding of a code point below 0x110000 exactly when
+   it is a yang-char (RFC 7950 section 14); ly_checkutf8 and ly_pututf8 agree *)
+Definition enc_iff (cp : N) : bool :=
+  Bool.eqb (is_yang_char cp) (match getutf8 (utf8_encode cp) with Some _ => true | None => false end) &&
+  Bool.eqb (is_yang_char cp) (match checkutf8 (utf8_encode cp) with Some u => Nat.eqb u (length (utf8_encode cp)) | None => false end) &&
+  Bool.eqb (is_yang_char cp) (match pututf8 cp with Some b => beq_bytes b (utf8_encode cp) | None => false end).
+
+Lemma enc_iff_all : N_all_below 1114112 enc_iff = true.
+Proof. vm_cast_no_check (eq_refl true). Qed.
+
+Lemma getutf8_encode_iff cp :
+  cp < 1114112 ->
+  (is_yang_char cp = true <-> exists r, getutf8 (utf8_encode cp) = Some r) /\
+  (is_yang_char cp = true <-> checkutf8 (utf8_encode cp) = Some (length (utf8_encode cp))) /\
+  (is_yang_char cp = true <-> pututf8 cp = Some (utf8_encode cp)).
+Proof.
+  intro Hlt. pose proof (N_all_below_spec _ _ enc_iff_all cp Hlt) as E. unfold enc_iff in E.
+  apply andb_true_iff in E. destruct E as [E E3]. apply andb_true_iff in E. destruct E as [E1 E2].
+  apply Bool.eqb_prop in E1, E2, E3. split; [|split].
+  - rewrite E1. destruct (getutf8 (utf8_encode cp)) as [r|]; split; try discriminate; eauto. intros [r H]. discriminate.
+  - rewrite E2. destruct (checkutf8 (utf8_encode cp)) as [u|]; split; try discriminate.
+    + intro H. apply Nat.eqb_eq in H. subst. reflexivity.
+    + intro H. inversion H. apply Nat.eqb_refl.
+  - rewrite E3. destruct (pututf8 cp) as [b|]; split; try discriminate.
+    + intro H. apply beq_bytes_eq in H. subst. reflexivity.
+    + intro H. inversion H; subst. apply beq_bytes_eq. reflexivity.
+Qed.
